@@ -85,7 +85,11 @@ def parse_ref(s):
     d, t = s.split('T')
     y, m, dd = d.split('-')
     hh, mm, ss = t.split(':')
-    return datetime.datetime(int(y), int(m), int(dd), int(hh), int(mm), int(ss))
+    us = 0
+    if '.' in ss:                      # "HH:MM:SS.ffffff": a reference with a sub-second part
+        ss, frac = ss.split('.')
+        us = int((frac + '000000')[:6])
+    return datetime.datetime(int(y), int(m), int(dd), int(hh), int(mm), int(ss), us)
 
 
 _RECOG = {
